@@ -387,7 +387,7 @@ func checkC02(c *Ctx, r *Report) {
 		nS20 := 0
 		for _, f := range c.FnsOfPkg("p2p/net/pnet") {
 			for _, dir := range []struct{ field, what string }{{"writeS20", "written"}, {"readS20", "read"}} {
-				for _, st := range findInstrs(f, fieldWritePred(pskT+"."+dir.field)) {
+				for _, st := range findInstrsIn(f, fieldWritePred(pskT+"."+dir.field)) {
 					nS20++
 					mk := isResultOfCall(st.(*ssa.Store).Val, 0, "github.com/davidlazar/go-crypto/salsa20.New")
 					key := fnKey(f) + ": " + dir.field + " installed only after its nonce was " + dir.what
